@@ -19,7 +19,13 @@ import threading
 INF = 10 ** 9
 
 
+class BatonStuck(RuntimeError):
+    pass
+
+
 class Baton:
+    patience = 20.0
+
     def __init__(self, traced_files):
         self.cv = threading.Condition()
         self.owner = None          # thread that may run
@@ -85,18 +91,23 @@ class Baton:
                 self.cv.notify_all()
 
     # ---- controller side ---------------------------------------------------
+    def _wait(self, what):
+        # a thread that never comes back (blocked on a mutex the baton does not know) must not hang the check
+        if not self.cv.wait(timeout=self.patience):
+            raise BatonStuck("thread did not hand the baton back within %.0f s (%s)" % (self.patience, what))
+
     def _grant(self, me, n):
         """Let `me` execute up to n more line steps; returns when it parked or finished."""
         with self.cv:
             while me not in self.parked and me not in self.finished:
-                self.cv.wait()
+                self._wait("waiting for %s to park" % me)
             if me in self.finished:
                 return
             self.budget[me] = n
             self.owner = me
             self.cv.notify_all()
             while not (self.owner is None and (me in self.parked or me in self.finished)):
-                self.cv.wait()
+                self._wait("running %s" % me)
 
     def run(self, ops, first, k1, k2, k3=None):
         """ops: dict name -> callable (two entries).  Returns line steps per thread.
